@@ -279,7 +279,7 @@ func (c C11) Run(t *tape.Tape, opt core.RunOpt) (res core.Result) {
 	req := workload.GenRequest(t, workload.ReqOpt{Strat: strat, MultiOp: true, VarInLiteral: strat != workload.StratReflect,
 		ShuffleArgs: true, UnknownArgs: strat != workload.StratReflect, NoErrors: t.Bool(1, 2), MaxDepth: 2 + t.Draw(3),
 		NoUnion:       strat == workload.StratInterface || (strat == workload.StratMixed && !(q.Raw["Dog"] && q.Raw["Bird"] && q.Raw["Keeper"] && q.Raw["Cell"])),
-		Introspection: true, VarDirectivesInMeta: true, Pick: true, Span: true, Blob: true, Call: true, FragVars: true, Ghost: true, Relay: t.Bool(1, 2), Nick: true, BadDefaults: t.Bool(1, 3), Tune: t.Bool(1, 2), Stamps: true, Sized: strat != workload.StratReflect && strat != workload.StratMixed})
+		Introspection: true, VarDirectivesInMeta: true, Pick: true, Span: true, Blob: true, Call: true, FragVars: true, Ghost: true, Relay: t.Bool(1, 2), Nick: true, BadDefaults: t.Bool(1, 3), Tune: t.Bool(1, 2), Stamps: true, Stash: strat != workload.StratReflect && strat != workload.StratMixed, Sized: strat != workload.StratReflect && strat != workload.StratMixed})
 	res.Evaluations = 1
 	res.Sig = core.Hash64("c11", strat.String(), req.Src)
 	var hist []string
